@@ -212,9 +212,26 @@ def _job(args):
     return part.dump(), succ
 
 
+# ------------------------------------------------------------------------------
+# Threads: a TaskManager has ONE state subscriber thread, so two notification
+# batches are never applied concurrently (an exploration of two threads inside
+# _state_sub_cb reports callbacks of the slower thread after the final state
+# announced by the faster one - a schedule the deployment cannot produce; that
+# part was removed again).  What does run next to the subscriber thread is the
+# handler of a pilot's end, which checks and fails tasks on the same Task
+# objects: that pair is explored (engine B, all schedules within the delay
+# bound) by the race part shared with C13, judged here by C06's clauses (one
+# final state announced, Task.state equals the last announcement).
+#
+def run_race(ctx):
+    from checks import c13_pilot_death
+    c13_pilot_death.run_race(ctx)
+
+
 def run(ctx):
     global _blist
     ctx.level = 'model_checking'
+    run_race(ctx)
     max_len   = 2 if ctx.quick else 3
     _blist    = list(batches(max_len))
     chunk     = max(1, len(_blist) // (ctx.workers * 2))
@@ -249,6 +266,9 @@ def run(ctx):
 
 def replay(ctx, data):
     r = data['replay']
+    if 'race' in r:
+        from checks import c13_pilot_death
+        return c13_pilot_death.replay(ctx, data)
     hist  = [tuple(tuple(x) for x in b) for b in r['history']]
     batch = tuple(tuple(x) for x in r['batch'])
     w = build(hist)
